@@ -468,7 +468,8 @@ def record_build(idx, text, used, w, policy="drop", **kw):
     between = kw.pop("between", None)   # called with the built design before it is projected (a history step)
     if "extra_namespace" not in kw and getattr(w, "namespace", None):
         kw["extra_namespace"] = dict(w.namespace)
-    st, dm = design.build(text, w.df, na_action=policy, **kw)
+    # 'drop' is the default policy: every other time it is left out
+    st, dm = design.build(text, w.df, na_action=(None if policy == "drop" and idx % 2 == 0 else policy), **kw)
     if st == "ok" and between is not None:
         between(dm)
     ev = {
